@@ -156,6 +156,13 @@ def trigger(spec, res):
 
 
 def oracle(spec, res):
+    if spec['params'].get('revived') and spec['family'].endswith('cancelled_then_revived'):
+        # the family is about a cancellation that arrives while a handler is IN FLIGHT; schedules in which the outsider cancels the task at another point (an event
+        # dequeued but its handler not yet started, ...) are the windows of observation O2 (DESIGN.md) and are not judged
+        cl = next((r[0] for r in res['log'] if r[2] == 'cancel-loop'), None)
+        started = any(r[2] == 'enter' and r[4] == 'hp' and cl is not None and r[0] < cl for r in res['log'])
+        if not started:
+            return []
     if spec.get('mode') == 'noloop':
         out = []
         for variant, o in res['extra'].get('noloop', {}).items():
